@@ -7,6 +7,7 @@ import (
 	"os"
 	"os/exec"
 	"path/filepath"
+	"regexp"
 	"runtime"
 	"sort"
 	"strconv"
@@ -67,6 +68,8 @@ func Resolve(prop string, out *Outcome, open map[string]Finding) (known []string
 /* ---------- worker protocol ---------- */
 
 type FoundViolation struct {
+	From     int       `json:"from"`
+	Stride   int       `json:"stride"`
 	Idx      int       `json:"idx"`
 	Scenario *Scenario `json:"scenario"`
 	V        Violation `json:"v"`
@@ -181,7 +184,7 @@ func Worker(o Opts, from, stride int, dumpHashes bool) {
 					fsc = out.Concrete
 					fsc.Prop, fsc.Seed, fsc.Tier = o.Prop, seed, o.Tier
 				}
-				rep.Violation = &FoundViolation{Idx: idx, Scenario: fsc, V: *out.Violation}
+				rep.Violation = &FoundViolation{From: from, Stride: stride, Idx: idx, Scenario: fsc, V: *out.Violation}
 				break
 			}
 		}
@@ -195,7 +198,19 @@ func Worker(o Opts, from, stride int, dumpHashes bool) {
 
 /* ---------- replay files ---------- */
 
+// History, when present, makes the replay re-execute the finding worker's
+// whole deterministic run sequence (indices From, From+Stride, ..., Upto) in
+// one fresh process: used when a violation depends on state the library keeps
+// between runs (package-level variables), so that no single scenario
+// reproduces it.
+type History struct {
+	From   int `json:"from"`
+	Stride int `json:"stride"`
+	Upto   int `json:"upto"`
+}
+
 type ReplayFile struct {
+	History   *History  `json:"history,omitempty"`
 	Property  string    `json:"property"`
 	Seed      uint64    `json:"seed"`
 	RunIndex  int       `json:"run_index"`
@@ -228,8 +243,23 @@ func Replay(path, knownPath string) int {
 	LoadSites()
 	InstallClock()
 	open := LoadFindings(knownPath)
-	out := SafeExecute(p, rf.Scenario)
-	Resolve(rf.Property, out, open)
+	var out *Outcome
+	if h := rf.History; h != nil && h.Stride > 0 {
+		for idx := h.From; idx <= h.Upto; idx += h.Stride {
+			seed := RunSeed(rf.Seed, rf.Property, idx)
+			sc := p.Generate(NewRand(seed), rf.Tier)
+			sc.Prop, sc.Seed, sc.Tier = rf.Property, seed, rf.Tier
+			out = SafeExecute(p, sc)
+			Resolve(rf.Property, out, open)
+			if out.Violation != nil && idx != h.Upto {
+				fmt.Printf("REPLAY note: run %d of the history already fails (%s)\n", idx, out.Violation.Oracle)
+				break
+			}
+		}
+	} else {
+		out = SafeExecute(p, rf.Scenario)
+		Resolve(rf.Property, out, open)
+	}
 	if out.Discard != "" {
 		fmt.Printf("REPLAY property=%s discarded: %s\n", rf.Property, out.Discard)
 		return 3
@@ -433,28 +463,57 @@ func Batch(o Opts) int {
 			fmt.Fprintln(os.Stderr, "runner: write replay:", err)
 			return 2
 		}
-		// confirm in a fresh process
-		cmd := exec.Command(o.Self, "-replay", replayPath, "-known", o.Known)
-		cmd.Env = os.Environ()
-		outb, _ := cmd.CombinedOutput()
-		if !strings.Contains(string(outb), "oracle="+viol.V.Oracle+" ") {
-			// the minimised scenario may have been accepted under state left over
-			// by earlier candidates in this process: fall back to the scenario as found
-			rf.Scenario, rf.Minimised, rf.Message = viol.Scenario, false, viol.V.Msg
-			b, _ = json.MarshalIndent(&rf, "", " ")
+		// confirm in a fresh process: (1) the minimised scenario, (2) the scenario
+		// as found, (3) the finding worker's whole run history. A replay that
+		// shows a violation of the property under another oracle name is still a
+		// reproduction (state kept by the library between runs can change which
+		// oracle fires first); the file then records what the fresh process saw.
+		oracleRe := regexp.MustCompile(`REPLAY property=\S+ oracle=(\S+) `)
+		confirm := func() (string, bool) {
+			cmd := exec.Command(o.Self, "-replay", replayPath, "-known", o.Known)
+			cmd.Env = os.Environ()
+			outb, _ := cmd.CombinedOutput()
+			if m := oracleRe.FindStringSubmatch(string(outb)); m != nil && strings.Contains(string(outb), "VIOLATION property=") {
+				return m[1], true
+			}
+			return string(outb), false
+		}
+		write := func() bool {
+			b, _ := json.MarshalIndent(&rf, "", " ")
 			if err := os.WriteFile(replayPath, b, 0o644); err != nil {
 				fmt.Fprintln(os.Stderr, "runner: write replay:", err)
-				return 2
+				return false
 			}
-			cmd = exec.Command(o.Self, "-replay", replayPath, "-known", o.Known)
-			cmd.Env = os.Environ()
-			outb, _ = cmd.CombinedOutput()
-			if !strings.Contains(string(outb), "oracle="+viol.V.Oracle+" ") {
-				fmt.Fprintf(os.Stderr, "runner: replay in a fresh process did not reproduce the violation class, minimised or not (the run depends on state outside the scenario: determinism trouble):\n%s\n", outb)
-				return 2
-			}
+			return true
+		}
+		got, ok := confirm()
+		if !ok {
+			rf.Scenario, rf.Minimised, rf.Message = viol.Scenario, false, viol.V.Msg
 			msg = viol.V.Msg
-			fmt.Printf("qsim: the minimised scenario did not reproduce in a fresh process; the replay file holds the scenario as found\n")
+			if !write() {
+				return 2
+			}
+			fmt.Printf("qsim: the minimised scenario did not reproduce in a fresh process; trying the scenario as found\n")
+			got, ok = confirm()
+		}
+		if !ok && viol.Stride > 0 {
+			rf.History = &History{From: viol.From, Stride: viol.Stride, Upto: viol.Idx}
+			if !write() {
+				return 2
+			}
+			fmt.Printf("qsim: not reproducible from one scenario (the library keeps state between runs); the replay file re-executes the worker's run history %d,%d,...,%d\n", viol.From, viol.From+viol.Stride, viol.Idx)
+			got, ok = confirm()
+		}
+		if !ok {
+			fmt.Fprintf(os.Stderr, "runner: no replay in a fresh process reproduces a violation (minimised, as found, whole history): determinism trouble\n%s\n", got)
+			return 2
+		}
+		if got != viol.V.Oracle {
+			rf.Oracle = got
+			rf.Message = "fresh process reports oracle " + got + "; worker reported " + viol.V.Oracle + ": " + rf.Message
+			if !write() {
+				return 2
+			}
 		}
 		fmt.Printf("qsim: replay confirmed in a fresh process\n  %s\n", msg)
 		code = 1
